@@ -40,7 +40,8 @@ def build_tables():
                 steps["storei:%s:%d:%d" % (base, w, off)] = "mov%s $0x%x, %s" % (SUF[w], (0x11223344 + off) & ((1 << w) - 1), addr)
                 steps["loadz:%s:%d:%d" % (base, w, off)] = ("movz%sl %s, %%edx" % (SUF[w], addr)) if w < 32 else ("movl %s, %%edx" % addr)
     misc = ["addl %ecx, %eax", "subl $1, %ebx", "xorl %edx, %edx", "incl %ecx", "negl %eax", "notl %ebx", "leal 4(%eax,%ecx,2), %edx", "xchgl %eax, %ebx",
-            "movl $0x12345678, %eax", "movl $3, %ecx", "movl $0, %ecx", "movl $1, %ecx", "movl $5, %ecx", "movw $0xffff, %dx", "movb $0x7f, %al", "movb $0x11, %al", "movb $0x80, %ah",
+            "movl $0x12345678, %eax", "movl $3, %ecx", "movl $0, %ecx", "movl $1, %ecx", "movl $5, %ecx", "movw $0xffff, %dx", "movb $0x7f, %al", "movb $0x11, %al", "movb $0x80, %ah", "movl %ecx, %edx", "movl %edx, %ecx", "movl $3, %edx", "movb $0x81, %bl", "movw $0x8001, %bx",
+            "rorb $12, %bl", "rorb $7, %bl", "rorw $20, %bx", "rorw $9, %bx", "rorb %cl, %bl", "rorl $12, %ebx", "movl $12, %ecx", "movl $20, %ecx", "cwtl", "cbtw", "movw $0x8234, %ax",
             "shll $4, %eax", "shrl $1, %ebx", "sarl $31, %edx", "roll $8, %eax", "andl $0xff00, %ebx", "orl %eax, %edx", "adcl %ebx, %eax", "sbbl $0, %edx",
             "cmpl %eax, %ebx", "testl %ecx, %ecx", "sete %al", "sete %ah", "setne %bl", "setb %ch", "setl %dl", "setge %bh", "cmpl %ecx, %ebx", "movzbl %al, %ebx", "movsbl %ah, %ecx", "movzwl %dx, %eax", "imull %ecx, %eax", "cltd", "cld", "std",
             "pushl %eax", "pushl %ebx", "popl %ecx", "popl %edx", "pushl $0x55", "pushw %ax", "popw %bx",
@@ -495,11 +496,19 @@ def rep_histories(codes):
         for sname, setup in sorted(setups.items()):
             if d == "x:std" and sname != "symbolic-data":
                 continue            # the set-ups fill upwards
-            for n in ("x:movl $0, %ecx", "x:movl $1, %ecx", "x:movl $3, %ecx", "x:movl $5, %ecx"):
+            for n in (["x:movl $0, %ecx"], ["x:movl $1, %ecx"], ["x:movl $3, %ecx"], ["x:movl $5, %ecx"],
+                      # the count also lives somewhere else (copied to / from another register, through the stack)
+                      ["x:movl $3, %ecx", "x:movl %ecx, %edx"], ["x:movl $3, %edx", "x:movl %edx, %ecx"], ["x:pushl $0x55", "x:movl $3, %ecx", "x:pushl %ecx", "x:popl %edx"]):
                 for r in reps:
-                    h = ([d] if sname == "symbolic-data" else []) + setup + [n, r]
+                    h = ([d] if sname == "symbolic-data" else []) + setup + n + [r]
                     if all(x in codes for x in h):
                         out.append(h)
+    # concrete sub-register arithmetic whose folding depends on the operand width
+    for h in (["x:movb $0x81, %bl", "x:rorb $12, %bl"], ["x:movb $0x81, %bl", "x:rorb $7, %bl"], ["x:movw $0x8001, %bx", "x:rorw $20, %bx"], ["x:movw $0x8001, %bx", "x:rorw $9, %bx"],
+              ["x:movl $12, %ecx", "x:movb $0x81, %bl", "x:rorb %cl, %bl"], ["x:movl $20, %ecx", "x:movw $0x8001, %bx", "x:rorb %cl, %bl"], ["x:movl $0x12345678, %eax", "x:cwtl"],
+              ["x:movw $0x8234, %ax", "x:cwtl"], ["x:movb $0x80, %ah", "x:movb $0x7f, %al", "x:cbtw"], ["x:movl $0x12345678, %eax", "x:movb $0x80, %ah", "x:cbtw", "x:cwtl"]):
+        if all(x in codes for x in h):
+            out.append(h)
     return out
 
 
